@@ -249,10 +249,10 @@ def eitherF32 (f : Opts → String) (o : Opts) (impl : Option String) : String :
 /-- the conf loaders of the driver: a type whose flattened fields repeat a lower-cased key goes through the loader WITH the
 merging (`loadTreeM`), every other type through the loaders the theorems are stated for (equal there:
 `loadTreeM_eq_loadTreeO`). -/
-def mergeTy (fs : Fields) : Bool := hasDup (infoFields fs).keys
-def ldJsonO (o : Opts) (fs : Fields) (j : J) : R Val := if mergeTy fs then loadTreeM o fs j else loadJsonO o fs j
-def ldYamlO (o : Opts) (fs : Fields) (y : Y) : R Val := if mergeTy fs then loadTreeM o fs (yamlGlue y) else loadYamlO o fs y
-def ldTomlO (o : Opts) (fs : Fields) (t : T) : R Val := if mergeTy fs then loadTreeM o fs (tomlGlue t) else loadTomlO o fs t
+def hasMergedKeys (fs : Fields) : Bool := hasDup (infoFields fs).keys
+def ldJsonO (o : Opts) (fs : Fields) (j : J) : R Val := if hasMergedKeys fs then loadTreeM o fs j else loadJsonO o fs j
+def ldYamlO (o : Opts) (fs : Fields) (y : Y) : R Val := if hasMergedKeys fs then loadTreeM o fs (yamlGlue y) else loadYamlO o fs y
+def ldTomlO (o : Opts) (fs : Fields) (t : T) : R Val := if hasMergedKeys fs then loadTreeM o fs (tomlGlue t) else loadTomlO o fs t
 
 structure St where
   fs : Option Fields := none
@@ -961,7 +961,7 @@ def runSection (r : Report) (s : Section) : Report := Id.run do
       | some fs =>
         st := { fs := some fs }
         r := r.addCover (if plainTy (.struct fs) then "type-plain" else "type-tagged")
-        if mergeTy fs then r := r.addCover "type-embedded-structs-share-a-key-merged"
+        if hasMergedKeys fs then r := r.addCover "type-embedded-structs-share-a-key-merged"
         r := r.addCover (if tyInModel (.struct fs) then "type-in-model" else "type-deep-pointer-outside-model")
         if tyHasPtrElem (.struct fs) then r := r.addCover "type-pointer-elements"
         if tyHasDotKey (.struct fs) then r := r.addCover "type-dotted-key"
